@@ -379,9 +379,19 @@ class Harness:
         import threading as _real_threading
 
         # locks created by mako code from now on are scheduler-visible
-        for _m in (mako.lookup, mako.util, mako.template):
+        _shim = ThreadingShim(self.sched, _real_threading)
+        _lock_t, _rlock_t = type(_real_threading.Lock()), type(_real_threading.RLock())
+        for _name, _m in sorted(sys.modules.items()):
+            if _m is None or not (_name == "mako" or _name.startswith("mako.")):
+                continue
             if _m.__dict__.get("threading") is _real_threading:
-                _m.threading = ThreadingShim(self.sched, _real_threading)
+                _m.threading = _shim
+            # ... and so are locks that a mako module created when it was imported
+            for _k, _v in sorted(_m.__dict__.items()):
+                if type(_v) is _lock_t:
+                    setattr(_m, _k, _shim.Lock())
+                elif type(_v) is _rlock_t:
+                    setattr(_m, _k, _shim.RLock())
         self.lookup = mako.lookup.TemplateLookup(
             directories=[self.d0], module_directory=self.moddir, filesystem_checks=cfg["fs_checks"],
             collection_size=cfg["collection_size"], cache_impl="simdict")
